@@ -122,6 +122,35 @@ static WORKERS_DONE: AtomicU64 = AtomicU64::new(0);
 static ITERS_AFTER_DONE: AtomicU64 = AtomicU64::new(0);
 static GUARD_SLACK: AtomicU64 = AtomicU64::new(0);
 
+static JITTER_MAX_US: AtomicU64 = AtomicU64::new(0);
+static JITTER_STATE: AtomicU64 = AtomicU64::new(0x9E37_79B9_7F4A_7C15);
+
+/// Injects a pseudo-random delay of up to `max_us` microseconds after every protocol event
+/// (0 switches it off). The delays sit between the protocol's own synchronisation points
+/// (after a send, after a worker finishes, at the end of a reporter iteration), so they only
+/// produce interleavings the program can have anyway - more diversely than the scheduler does.
+pub fn proto_jitter(seed: u64, max_us: u64) {
+    JITTER_STATE.store(seed | 1, Ordering::SeqCst);
+    JITTER_MAX_US.store(max_us, Ordering::SeqCst);
+}
+
+fn jitter() {
+    let max = JITTER_MAX_US.load(Ordering::Relaxed);
+    if max == 0 {
+        return;
+    }
+    // xorshift on a shared word: races between threads only add to the variety
+    let mut x = JITTER_STATE.load(Ordering::Relaxed);
+    x ^= x << 13;
+    x ^= x >> 7;
+    x ^= x << 17;
+    JITTER_STATE.store(x, Ordering::Relaxed);
+    let us = x % (max + 1);
+    if us > 0 {
+        std::thread::sleep(std::time::Duration::from_micros(us));
+    }
+}
+
 /// Exit status used by the bounded-progress guard.
 pub const GUARD_EXIT_CODE: i32 = 97;
 
@@ -174,4 +203,5 @@ pub fn proto_emit(e: Proto) {
         }
         _ => {}
     }
+    jitter();
 }
